@@ -35,6 +35,14 @@ type Channel struct {
 	// using the channel when closing it.
 	sync.RWMutex
 	closed bool
+	// closing is closed by Close before it waits for the write lock.
+	// Goroutines that block while holding the read lock - the reader
+	// goroutine delivering into a full packageCh, a consumer waiting
+	// in NextPackage - return once it is closed. Close would wait for
+	// them forever otherwise.
+	closing     chan struct{}
+	closingLock *sync.Mutex
+	isClosing   bool
 
 	channelId int
 
@@ -90,6 +98,8 @@ func (tds *Conn) NewChannel() (*Channel, error) {
 		queueRx:            NewPacketQueue(tds.PacketSize),
 		queueTx:            NewPacketQueue(tds.PacketSize),
 		packageCh:          make(chan Package, tds.info.ChannelPackageQueueSize),
+		closing:            make(chan struct{}),
+		closingLock:        &sync.Mutex{},
 		errCh:              make(chan error, 10),
 	}
 
@@ -195,6 +205,15 @@ func (tdsChan *Channel) Close() error {
 
 		// TODO process ack packet
 	}
+
+	// Wake up everybody blocked on the channel while holding the read
+	// lock.
+	tdsChan.closingLock.Lock()
+	if !tdsChan.isClosing {
+		tdsChan.isClosing = true
+		close(tdsChan.closing)
+	}
+	tdsChan.closingLock.Unlock()
 
 	// Lock the channel and store the closed indicator.
 	tdsChan.Lock()
@@ -366,6 +385,8 @@ func (tdsChan *Channel) NextPackage(ctx context.Context, wait bool) (Package, er
 		return pkg, nil
 	case err := <-ch:
 		return nil, err
+	case <-tdsChan.closing:
+		return nil, ErrChannelClosed
 	}
 }
 
@@ -621,6 +642,17 @@ func (tdsChan *Channel) sendPacket(packet *Packet) error {
 	return nil
 }
 
+// deliver passes a package to the consumer. It returns false if the
+// channel is being closed while the package queue is full.
+func (tdsChan *Channel) deliver(pkg Package) bool {
+	select {
+	case tdsChan.packageCh <- pkg:
+		return true
+	case <-tdsChan.closing:
+		return false
+	}
+}
+
 // WritePacket receives packets from the associated Conn and attempts to
 // produce Packages from the existing data.
 func (tdsChan *Channel) WritePacket(packet *Packet) {
@@ -633,7 +665,7 @@ func (tdsChan *Channel) WritePacket(packet *Packet) {
 	// The packet is header-only - pass it directly into the package
 	// channel.
 	if packet.Header.Length == PacketHeaderSize {
-		tdsChan.packageCh <- &HeaderOnlyPackage{Header: packet.Header}
+		tdsChan.deliver(&HeaderOnlyPackage{Header: packet.Header})
 		return
 	}
 
@@ -676,7 +708,7 @@ func (tdsChan *Channel) tryParsePackage() bool {
 			// - usually only when a procedure with multiple commands is
 			// being executed.
 			if !tdsChan.rxDoneFinal {
-				tdsChan.packageCh <- &DonePackage{Status: TDS_DONE_FINAL}
+				tdsChan.deliver(&DonePackage{Status: TDS_DONE_FINAL})
 			}
 			// The next message starts without a final DonePackage.
 			tdsChan.rxDoneFinal = false
@@ -732,7 +764,9 @@ func (tdsChan *Channel) tryParsePackage() bool {
 		return true
 	}
 
-	tdsChan.packageCh <- pkg
+	if !tdsChan.deliver(pkg) {
+		return false
+	}
 	tdsChan.lastPkgRx = pkg
 	tdsChan.rxDoneFinal, _ = isDoneFinal(pkg)
 	return true
